@@ -369,10 +369,20 @@ pub enum BKind {
     /// (only used as the outermost access of a nesting)
     IterBorrowCrossS,
     IterBorrowCrossM,
+    /// `dst.clone_from(&world)` into a fresh world of the same capacities (world level)
+    CloneFromWorld,
+    /// `world.arch.clone()` (one archetype: only ITS columns matter)
+    CloneArch,
+    /// `dst_arch.clone_from(&world.arch)` into a fresh archetype of the same capacity
+    CloneFromArch,
+    /// `ecs_find_borrow!` keyed by a direct handle (minted right before, which takes no runtime
+    /// borrow): typed `EntityDirect<A>` for the shared, `EntityDirectAny` for the mutable flavour
+    FindBorrowDirectS,
+    FindBorrowDirectM,
 }
 
 impl BKind {
-    pub const ALL: [BKind; 18] = [
+    pub const ALL: [BKind; 23] = [
         BKind::FindBorrowS,
         BKind::FindBorrowM,
         BKind::IterBorrowS,
@@ -391,9 +401,22 @@ impl BKind {
         BKind::IterBorrowAnonM,
         BKind::IterBorrowCrossS,
         BKind::IterBorrowCrossM,
+        BKind::CloneFromWorld,
+        BKind::CloneArch,
+        BKind::CloneFromArch,
+        BKind::FindBorrowDirectS,
+        BKind::FindBorrowDirectM,
     ];
+    /// clone-like accesses: they read every column (of the world / of one archetype) and are
+    /// refused exactly while one of those columns is mutably borrowed
+    pub fn is_clone(&self) -> bool {
+        matches!(self, BKind::CloneWorld | BKind::CloneFromWorld | BKind::CloneArch | BKind::CloneFromArch)
+    }
+    pub fn clone_is_world_level(&self) -> bool {
+        matches!(self, BKind::CloneWorld | BKind::CloneFromWorld)
+    }
     pub fn mutable(&self) -> bool {
-        matches!(self, BKind::FindBorrowM | BKind::IterBorrowM | BKind::CompM | BKind::SliceM | BKind::FindBorrowOneOfM | BKind::IterBorrowOneOfM | BKind::FindBorrowAnonM | BKind::IterBorrowAnonM | BKind::IterBorrowCrossM)
+        matches!(self, BKind::FindBorrowM | BKind::IterBorrowM | BKind::CompM | BKind::SliceM | BKind::FindBorrowOneOfM | BKind::IterBorrowOneOfM | BKind::FindBorrowAnonM | BKind::IterBorrowAnonM | BKind::IterBorrowCrossM | BKind::FindBorrowDirectM)
     }
     /// The access observes (and, if mutable, overwrites) the component value.
     pub fn reads_value(&self) -> bool {
@@ -403,7 +426,7 @@ impl BKind {
         matches!(self, BKind::IterBorrowCrossS | BKind::IterBorrowCrossM)
     }
     pub fn needs_entity(&self) -> bool {
-        matches!(self, BKind::FindBorrowS | BKind::FindBorrowM | BKind::CompS | BKind::CompM | BKind::FindBorrowOneOfS | BKind::FindBorrowOneOfM | BKind::FindBorrowAnonS | BKind::FindBorrowAnonM)
+        matches!(self, BKind::FindBorrowS | BKind::FindBorrowM | BKind::CompS | BKind::CompM | BKind::FindBorrowOneOfS | BKind::FindBorrowOneOfM | BKind::FindBorrowAnonS | BKind::FindBorrowAnonM | BKind::FindBorrowDirectS | BKind::FindBorrowDirectM)
     }
     pub fn is_iter(&self) -> bool {
         matches!(self, BKind::IterBorrowS | BKind::IterBorrowM | BKind::IterBorrowOneOfS | BKind::IterBorrowOneOfM | BKind::IterBorrowAnonM | BKind::IterBorrowCrossS | BKind::IterBorrowCrossM)
@@ -428,6 +451,11 @@ impl BKind {
             BKind::IterBorrowAnonM => "iter_borrow(_: &mut)",
             BKind::IterBorrowCrossS => "iter_borrow(& , all archetypes)",
             BKind::IterBorrowCrossM => "iter_borrow(&mut , all archetypes)",
+            BKind::CloneFromWorld => "clone_from",
+            BKind::CloneArch => "Archetype::clone",
+            BKind::CloneFromArch => "Archetype::clone_from",
+            BKind::FindBorrowDirectS => "find_borrow(&, direct key)",
+            BKind::FindBorrowDirectM => "find_borrow(&mut, dynamic direct key)",
         }
     }
 }
